@@ -247,3 +247,48 @@ prop(
         '(trusted), re-lexing of literal tokens.'
     ),
 )
+
+prop(
+    'C09',
+    ['R1', 'R4', 'X3b', 'S3'],
+    explanation=(
+        'Schema extraction + finite-model check. R1: for every syntactic path of _split_and_not, _split_and_quantifier and '
+        '_and_presplit_transform the input shape is read from the guards (is_not/is_or/is_implies/quantifier kind, '
+        'contains_reference(variable) flags, recursive helper calls as induction hypotheses), the returned constructor term '
+        'is converted to a formula over opaque atoms, and input == output is checked in every model with domain size 0..3 '
+        '(atoms that mention the bound variable are unary predicates, the others propositions; an atom that mentions the '
+        'variable outside its quantifier is an escape); every divisible shape named by the property has a transforming '
+        'branch. R4: the work list skips literal true, raises ValueError exactly for literal false, pushes both operands of '
+        'conjunctions after the transformation and emits everything else once. X3b: documented raises only. S3: the '
+        'contains_reference queries that decide the side conditions cover every slot. Not decided: shapes outside the table '
+        '(returned unchanged).'
+    ),
+    assumptions=['monadic first-order formulas with <= 3 predicates: domain sizes 0..3 exhaust the relevant models for these schemas (one quantifier, emptiness test)'],
+)
+
+prop(
+    'C10',
+    ['R2', 'S3'],
+    explanation=(
+        'R2: for every path of _refactor_ref_expr, _split_ref_operator, _split_ref_negation and _split_ref_quantifier the '
+        'returned pair (f1, f2) is converted to formulas as in R1 and f1 & f2 == input is checked in all models with domain '
+        'size 0..3 (so a conjunct hoisted out of a universal quantifier without the empty-domain guard, or one that '
+        'mentions the bound variable, is found); f1 consists only of parts whose contains_reference(alias) flag is false on '
+        'that path; delegations to sibling helpers pass an equivalent formula; alias absent -> (input itself, True). S3: '
+        'contains_reference covers every slot of every class.'
+    ),
+)
+
+prop(
+    'C13',
+    ['R3', 'R5', 'S4', 'S3'],
+    explanation=(
+        'R3: negate/join of the three predicate classes against the combinator table (~T=F, ~F=T, ~~p=p only under a "not" '
+        'guard, ~p=Not(p); T&q=q, F&q=F, p&T=p, p&F=F, p&q=And(p,q)); predicate_from_expression maps literal conditions to '
+        'the vacuous predicates. R5: replace_this_with_var builds "@"+alias, wrappers call the matching replace_*; leaf '
+        'overrides substitute exactly the matching node; the event constructor rewrites its own alias to the message. S4: '
+        'reshape passes every slot of every expression class through f in both arms, deep arm recursing first, identity '
+        'only when ALL slots are unchanged, rebuilt with but(). Not decided: capture by quantifiers (excluded by the '
+        'statement).'
+    ),
+)
